@@ -13,11 +13,12 @@ def run(ctx):
         "query at the first '?', userinfo at the last '@', password at the first ':' of the userinfo, port after ']' or at "
         "the first ':' - classified semantically (partition/find/split(.,1) = first, r* = last; unknown idioms are exit 2); "
         "(B3) every component split_url returns is a substring of the cleaned input, the scheme lower-cased - no rewriting step between the cut and the return; (F1-ENC) encoded=True stores the split parts by identity. (SH5) port 0 is not treated as absent where the authority is split or assembled. Not decided: equality with the RFC decomposition for all "
-        "strings; re-composition (printer) is covered by C03's template rule.")
+        "strings; (TPL1) for every class of parts the splitter can produce, the printed form decomposes (Appendix B) into the same parts.")
     parser.t11(ctx)
     parser.split_url_table(ctx)
     parser.split_url_verbatim(ctx)
     parser.split_netloc_table(ctx)
+    parser.split_netloc_verbatim(ctx)
     parser.pre_encoded_identity(ctx)
     flow.f2(ctx, make_kinds(ctx.model))     # str() re-composes the authority from the raw accessors (bracketed host, raw userinfo)
     # ... and a written port 0 is part of the authority: the helpers that split and assemble it never test a port for truthiness
@@ -25,3 +26,6 @@ def run(ctx):
     from .common import authority_function, claim_in
     claim_in(ctx, ("SH5",), authority_function, "the functions that split and assemble the authority")
     port.sh5(ctx)
+    # "the raw accessors re-compose to str(url)": what the printer emits for parts the splitter can produce decomposes into those parts
+    from ..rules import template
+    template.tpl1(ctx, parse_reachable_only=True)
